@@ -86,9 +86,17 @@ func rowsC(ds []rowDesc) any {
 	return out
 }
 
+const kMapSI = "c10:mapsi" // map[string]int
+
 // localGo builds the values of the local kinds; ok is false for every other kind.
 func localGo(v vals.V) (any, bool) {
 	switch v.K {
+	case kMapSI:
+		out := make(map[string]int, len(v.M))
+		for k, e := range v.M {
+			out[k], _ = strconv.Atoi(e.S)
+		}
+		return out, true
 	case kRowsA:
 		return rowsA(rowDescs(v)), true
 	case kRowsB:
